@@ -101,13 +101,18 @@ def run(ctx):
         elif t[5] != '0' or t[6] != '0': viol.append(dict(why='re-initialised threaded encoder: %s bytes live after lzma_end, %s bad frees' % (t[5], t[6]), line=l[:300], stderr=''))
     # ---- threaded decoder: memlimit_threading / memlimit_stop
     tl, tm = [], []
-    for _ in range(3 if ctx.quick() else 40):
+    # A = large dictionary, little data; B = tiny dictionary, large input/output buffers; C = in between.  Fixed orders (what the
+    # next Block needs - filters or buffers - after what the earlier ones left allocated or cached) and shuffled ones
+    fixed_orders = ['AAB', 'ABA', 'BAA', 'ACBA', 'BBA', 'AAABB', 'BAB', 'CACB']
+    for it in range(len(fixed_orders) + (2 if ctx.quick() else 40)):
         blocks = []
-        for ds in [1 << 22, 1 << 22, 1 << 22, 4096, 1 << 16]:
+        shape = fixed_orders[it] if it < len(fixed_orders) else 'AAABC'
+        for ch in shape:
+            ds = {'A': 1 << 22, 'B': 4096, 'C': 1 << 16}[ch]
             n = rng.choice([3000, 9000]) if ds > 4096 else rng.choice([200000, 400000])
             dd = (xzgen.gen_data(rng, 2000) * (n // 2000 + 1))[:n]
             blocks.append((dd, [{'id': 'lzma2', 'dict_size': ds, 'mode': lzma.MODE_FAST, 'mf': lzma.MF_HC3, 'nice_len': 16}], {'comp_present': True, 'uncomp_present': True}))
-        rng.shuffle(blocks)
+        if it >= len(fixed_orders): rng.shuffle(blocks)
         f = xzgen.stream(blocks, 1, rng)
         o1, _ = run_lines(drv, ['mem 0 0 1 0 ' + f.hex()], shards=1)
         single = int(o1[0].split()[6])   # the largest need reported while raising the limit step by step
